@@ -609,7 +609,9 @@ def table_layout(context, table, bottom_space, skip_stack, containing_block,
 
     # Invert columns for drawing.
     if table.style['direction'] == 'rtl':
-        column_widths.reverse()
+        # Don't change the list shared with the original table, the layout
+        # may be done again
+        table.column_widths = column_widths[::-1]
         column_positions.reverse()
 
     avoid_break = avoid_page_break(table.style['break_inside'], context)
